@@ -11,7 +11,8 @@ RULE = ("scenarios {1 command; 1 experiment; chain of 2; 2 parallel + dependent 
         "SIGINT/SIGTERM handler surfaces in the interrupted frame; oracle per injected run: exit != 0 with the abort message and no "
         "internal error; every virtual process that was running at the injection point has its process group in a killpg(SIGTERM) "
         "call by the end; the index holds no row for a task whose child had not exited 0. non-trivial = injection point reached with "
-        "a distinct (function, line, number of live processes); distinct = that triple per scenario")
+        "a distinct (function, line, number of live processes); distinct = that triple per scenario"
+        ' One scenario is a git project with cached versions at ancestor commits (planning talks to git before anything runs).')
 ASSUMPTIONS = [
     "one signal per execution; the granularity is a Python line of Conductor code (arrival inside a C call surfaces at the next line)",
     "injection points with a finalizer (__del__) on the stack are excluded: CPython discards exceptions raised there",
